@@ -1,13 +1,109 @@
-(* C12 — ELF loading places every segment byte and relocates the GOT exactly once. *)
+(* C12 — a loaded program starts in the MES process environment it expects. *)
 From Coq Require Import Bool ZArith List.
-From K Require Import Lib.Types Model.Machine Model.Bus Model.Elf Spec.ElfSpec Proofs.ElfProofs.
+From K Require Import Lib.Types Model.Machine Model.Bus Model.Elf Model.Run Spec.ElfSpec Proofs.ElfProofs Proofs.ElfLoad Proofs.ElfFacts.
 Import ListNotations.
 Open Scope Z_scope.
 
-(* the sequential big-endian readers deliver the ELF32 header fields found at their fixed offsets *)
-Theorem header_fields_at_their_offsets :
-  forall f, 52 <= flen f -> bytes_eq (firstn 4 f) [0x7f; 69; 76; 70] = true ->
-    parse_elf_header32 f = Some (ref_ehdr f, skz f 52).
-Proof. exact parse_header_at. Qed.
+(* the loader produces exactly the reference environment (registers, exit address, DRAM) on every file of the domain *)
+Theorem load_environment :
+  forall f args s,
+    wf_elf f args = true -> (forall j, 0 <= j -> sget (b_dram (cbus s)) j = 0) ->
+    exists s' d,
+      load f args s = Some s' /\
+      s' = set_exit (x_exit (expected_of f args (er s) (exit_addr s)))
+             (set_regs (x_er (expected_of f args (er s) (exit_addr s))) (set_bus (bset_dram d (cbus s)) s)) /\
+      forall j, 0 <= j -> sget d j = x_dram (expected_of f args (er s) (exit_addr s)) j.
+Proof. exact load_refines_proof. Qed.
 
-Print Assumptions header_fields_at_their_offsets.
+(* execution starts at the load base: ER2 = H'416900 whatever sections exist (run() takes PC from ER2) *)
+Theorem entry_is_load_base :
+  forall f args er0 exit0 got stk symt, get_er (x_er (expected_with f args er0 exit0 got stk symt)) 2 = BASE.
+Proof. exact er2_is_base. Qed.
+
+Theorem run_starts_at_er2 : forall s s', run_init s = Ok tt s' -> pc s' = get_er (er s) 2.
+Proof. exact run_init_pc. Qed.
+
+(* the exit address is the value of the (last) symbol named ___exit plus the load base *)
+Theorem exit_is_symbol_plus_base :
+  forall f args er0 exit0 got stk sy v, exit_value f sy = Some v ->
+    x_exit (expected_with f args er0 exit0 got stk (Some sy)) = BASE + v.
+Proof. exact exit_from_symbol. Qed.
+
+Theorem er5_is_got_address :
+  forall f args er0 exit0 g stk symt, get_er (x_er (expected_with f args er0 exit0 (Some g) stk symt)) 5 = BASE + sh_addr g.
+Proof. exact er5_is_got. Qed.
+
+(* SP = 8 below the 4-aligned end of the stack region, which begins where the image (highest PT_LOAD extent) ends *)
+Theorem sp_below_stack_end :
+  forall f args er0 exit0 got s symt,
+    get_er (x_er (expected_with f args er0 exit0 got (Some s) symt)) 7 = stack_end (ref_phdrs f) s - 8.
+Proof. exact er7_is_sp. Qed.
+
+(* stack [BASE + image end, stack_end), TCB [stack_end, stack_end + 88), argument block from argv_at: in that order,
+   4-byte aligned, without overlap *)
+Theorem layout_above_image :
+  forall phs s, 0 <= sh_addr s ->
+    BASE + img_end phs + sh_addr s <= stack_end phs s < BASE + img_end phs + sh_addr s + 4 /\
+    stack_end phs s mod 4 = 0 /\
+    stack_end phs s + TCB <= argv_at phs s < stack_end phs s + TCB + 4 /\ argv_at phs s mod 4 = 0.
+Proof. exact layout_order. Qed.
+
+(* the image ends at the highest PT_LOAD extent, wherever that header is in the table *)
+Theorem image_end_is_highest_extent :
+  forall phs ph, In ph phs -> is_load ph = true -> p_paddr ph + p_memsz ph <= img_end phs.
+Proof. exact img_end_ge. Qed.
+
+(* argc = 1 + number of words; argv = ER1 *)
+Theorem argc_counts_words :
+  forall f args er0 exit0 got s symt,
+    get_er (x_er (expected_with f args er0 exit0 got (Some s) symt)) 0 = 1 + Z.of_nat (length (words_of args [])).
+Proof. exact er0_is_argc. Qed.
+Theorem argv_in_er1 :
+  forall f args er0 exit0 got s symt,
+    get_er (x_er (expected_with f args er0 exit0 got (Some s) symt)) 1 = argv_at (ref_phdrs f) s.
+Proof. exact er1_is_argv. Qed.
+
+(* the block: argc pointers, a null pointer, then the NUL-terminated strings back to back; pointer i is the address
+   of string i *)
+Theorem arg_block_shape :
+  forall at_ ws, arg_block at_ ws = ptrs (at_ + 4 * (Z.of_nat (length ws) + 1)) ws ++ [0; 0; 0; 0] ++ strs ws.
+Proof. exact arg_block_eq. Qed.
+Theorem pointer_i_names_string_i :
+  forall ws a i w, nth_error ws i = Some w -> nth_error (str_addrs a ws) i = Some (a + strs_len (firstn i ws)).
+Proof. exact str_addrs_nth. Qed.
+
+(* the words are the maximal runs of non-blank bytes: none empty, none containing a blank, nothing lost *)
+Theorem words_are_blank_free :
+  forall l cur, forallb (fun c => negb (blank c)) cur = true ->
+    Forall (fun w => w <> [] /\ forallb (fun c => negb (blank c)) w = true) (words_of l cur).
+Proof. exact words_of_sound. Qed.
+Theorem words_keep_every_non_blank_byte :
+  forall l cur, cur ++ filter (fun c => negb (blank c)) l = concat (words_of l cur).
+Proof. exact words_of_content. Qed.
+
+(* the implementation's splitter (reversed accumulator) computes the same words *)
+Theorem splitter_agrees : forall args, prog_name :: split_ws args [] = argv_words args.
+Proof. exact argv_words_model. Qed.
+
+(* non-vacuity *)
+Example c12_words : words_of [32; 97; 98; 9; 9; 99; 32] [] = [[97; 98]; [99]].
+Proof. reflexivity. Qed.
+Example c12_block : arg_block 0x420000 [[112]; [97; 98]] =
+  [0; 0x42; 0; 12; 0; 0x42; 0; 14; 0; 0; 0; 0; 112; 0; 97; 98; 0].
+Proof. reflexivity. Qed.
+
+Print Assumptions load_environment.
+Print Assumptions entry_is_load_base.
+Print Assumptions er5_is_got_address.
+Print Assumptions run_starts_at_er2.
+Print Assumptions exit_is_symbol_plus_base.
+Print Assumptions sp_below_stack_end.
+Print Assumptions layout_above_image.
+Print Assumptions image_end_is_highest_extent.
+Print Assumptions argc_counts_words.
+Print Assumptions argv_in_er1.
+Print Assumptions arg_block_shape.
+Print Assumptions pointer_i_names_string_i.
+Print Assumptions words_are_blank_free.
+Print Assumptions words_keep_every_non_blank_byte.
+Print Assumptions splitter_agrees.
